@@ -12,8 +12,9 @@ from harness import election as E
 def client_runs(run, n, props):
     rng = run.rng
     for k_ in range(n):
-        dist = k_ >= 2 and rng.random() < 0.35
-        e = E.gen_election(rng, size=rng.choice(["small", "medium"]), roles=["reporting"] * 6 + ["partial"] * 3 + ["zero-percent", "blocklisted"],
+        dist = k_ >= 3 and rng.random() < 0.35
+        e = E.gen_election(rng, size=rng.choice(["small", "medium"]),
+                           roles=["reporting"] * 6 + ["partial"] * 3 + ["zero-percent", "blocklisted", "no-expected-vote"],
                            min_reporting=14, district=dist, many_districts=dist and rng.random() < 0.7, unexpected=not dist)
         tiny = (not dist) and (k_ < 2 or rng.random() < 0.35)   # the first two runs of every pass have tiny counties
         if tiny:
@@ -35,9 +36,34 @@ def client_runs(run, n, props):
                     d, g = max(0, bd + rng.randint(-2, 3)), max(0, bg + rng.randint(-2, 3))
                     e.cur.loc[j[0], ["results_dem", "results_gop", "results_turnout", "percent_expected_vote"]] = [d, g, d + g, rng.choice([97, 98, 99])]
                     e.roles[u] = "partial"
+        overshoot = (not tiny) and (k_ == 2 or rng.random() < 0.3)
+        if overshoot:
+            for _try in range(12):
+                if e.unit_type == "county" or dist:
+                    break
+                e = E.gen_election(rng, size="small", roles=["reporting"] * 6 + ["partial"] * 3 + ["zero-percent", "no-expected-vote"],
+                                   min_reporting=14, unexpected=True)
+            # the expected-vote figure is an estimate and overshoots: a caller that waits for 110 percent; outstanding units past 100
+            # percent whose count is lopsided (the partial-reporting bounds are convex combinations only up to 100 percent)
+            # (county units: every county is a group of its own at county level)
+            old_thr = e.threshold
+            e.threshold = 110
+            e.cur["percent_expected_vote"] = e.cur["percent_expected_vote"].astype(float)
+            part = []
+            for j in e.cur.index:
+                pv = e.cur.loc[j, "percent_expected_vote"]
+                if pv >= old_thr:
+                    e.cur.loc[j, "percent_expected_vote"] = rng.choice([110, 112, 125])
+                elif e.roles.get(e.cur.loc[j, "geographic_unit_fips"]) == "partial":
+                    part.append(j)
+            for j in part[:3]:
+                t = int(e.cur.loc[j, "results_dem"] + e.cur.loc[j, "results_gop"]) + 40
+                lop = rng.choice([0.01, 0.02, 0.98, 0.99])
+                d = int(t * lop)
+                e.cur.loc[j, ["results_dem", "results_gop", "results_turnout", "percent_expected_vote"]] = [d, t - d, t + 3, rng.choice([104, 106, 108])]
         # partial units anywhere between half and all of the expected vote (the provider's error bound is a setting)
         for j in e.cur.index:
-            if e.roles.get(e.cur.loc[j, "geographic_unit_fips"]) == "partial" and rng.random() < 0.4 and e.threshold > 75:
+            if e.roles.get(e.cur.loc[j, "geographic_unit_fips"]) == "partial" and rng.random() < 0.4 and e.threshold > 75 and not overshoot:
                 e.cur.loc[j, "percent_expected_vote"] = rng.choice([52, 60, 70])
         if dist:
             # the contests of a district election are the (state, district) pairs, named <state>_<district>
@@ -66,10 +92,11 @@ def client_runs(run, n, props):
         B = rng.choice([4, 8, 16])
         bound = rng.choice([{}, {}, {"percent_expected_vote_error_bound": 0.1}, {"percent_expected_vote_error_bound": 0.6},
                             {"percent_expected_vote_error_bound": 0.75}])
-        if tiny and e.unit_type == "county" and "county_fips" not in aggs:
+        if (tiny or overshoot) and e.unit_type == "county" and "county_fips" not in aggs:
             aggs = ["postal_code", "county_fips", "unit"]
         case = {"api_boot": True, "election": e.describe(), "lhs": lhs, "rhs": rhs, "stop": stop, "mode": mode, "alphas": alphas,
-                "aggregates": aggs, "B": B, "district_election": dist, "tiny_counties": tiny, "settings": bound}
+                "aggregates": aggs, "B": B, "district_election": dist, "tiny_counties": tiny, "settings": bound,
+                "expected_vote_overshoots": overshoot}
         extra = {}
         # the client hands the lists on as they come: list, tuple or set
         wrap = rng.choice([list, list, tuple, set])
@@ -234,7 +261,7 @@ def model_level_clip(run, n):
 
 
 def run_checks(run, budget, props):
-    n = {"quick": (6, 6), "thorough": (200, 120), "search": (40, 30)}[budget]
+    n = {"quick": (8, 6), "thorough": (200, 120), "search": (40, 30)}[budget]
     client_runs(run, n[0], props)
     if "C06" in props:
         model_level_clip(run, n[1])
